@@ -926,10 +926,8 @@ class ACTA(Command):
         self.shx = shx
 
     def _as_str(self):
-        if self.twotheta:
-            return f"ACTA {_fmt_number(self.twotheta[0])}"
-        else:
-            return "ACTA"
+        # self.nohkl holds the non-numeric parameters, i.e. the optional NOHKL flag
+        return ' '.join(['ACTA'] + [_fmt_number(x) for x in self.twotheta[:1]] + list(self.nohkl))
 
     def __repr__(self):
         return self._as_str()
